@@ -3,6 +3,7 @@
 
   FutureFSM       labtech.runners.process.Future
   SmallModels     labtech.utils.LoggerFileProxy, labtech.utils.OrderedSet, labtech.runners.process.ProcessMonitor
+  StorageSeq      the Storage interface as a sequential object: LocalStorage and FsspecStorage (local filesystem)
   LabRunTrace     implementation-level trace validation: is every recorded execution (hook events + the rig's environment
                   steps) a behaviour of LabRun?  A drift measure of the model, not a property verdict.
   LabRun (Grow)   task naming (G01) and progress bars (G02) of TaskCoordinator.run: model-checked through the
@@ -32,6 +33,36 @@ def _one(scratch, module, gen_cfg, judge_cfg, rig, jobfn, keep):
     first = next((o for o in obs if o['id'] in bad), None)
     return (not bad and len(verdicts) == len(obs)), (f'{module}/{gen_cfg}: {r.distinct} states, {len(obs)} call sequences replayed, '
                                                     f'{len(bad)} disagree' + (f'; first: {json.dumps(first)[:300]}' if first else ''))
+
+
+def storage_seq(scratch):
+    """StorageSeq: every call sequence of length 4 on LocalStorage and on an FsspecStorage over the local filesystem."""
+    r = tlc.run_tlc('StorageSeq', 'StorageSeq_gen.cfg', scratch=scratch, workers=4, heap='4g', tag='sg', timeout=1800)
+    if r.error or r.violated:
+        return False, f'StorageSeq: model failed: {r.error or r.violated}'
+    seqs = [json.loads(p) for p in r.prints]
+    n = 12
+    jobs = [{'id': f'st{i}', 'seqs': seqs[i::n]} for i in range(n)]
+    obs = harness.run_jobs(jobs, scratch, module='lv.rigs.storageseq', procs=n)
+    # non-vacuity: recordings with one reply altered must be judged as disagreeing
+    bad = []
+    for o in obs[:300]:
+        c = dict(o, id=o['id'] + '~corrupt', replies=list(o['replies']))
+        c['replies'][-1] = 'none' if c['replies'][-1] != 'none' else 'True'
+        bad.append(c)
+    f = scratch / 'obs_storageseq.ndjson'
+    tlc.dump_ndjson(f, [{k: o[k] for k in ('id', 'ops', 'replies')} for o in obs + bad])
+    j = tlc.run_tlc('StorageSeq', 'StorageSeq_judge.cfg', scratch=scratch, workers=1, heap='6g', env={'LV_OBS': str(f)}, tag='sj', timeout=1800)
+    if j.error or j.violated:
+        return False, f'StorageSeq: judge failed: {j.error or j.violated}'
+    verdicts = {v['id']: v['ok'] for v in (json.loads(p) for p in j.prints)}
+    disagree = [o for o in obs if not verdicts.get(o['id'], False)]
+    missed = [c['id'] for c in bad if verdicts.get(c['id'], True)]
+    first = disagree[0] if disagree else None
+    ok = not disagree and not missed and len(obs) == 2 * len(seqs) and len(seqs) > 1000
+    return ok, (f'StorageSeq: {r.distinct} states, {len(seqs)} call sequences replayed on 2 providers, {len(disagree)} disagree; '
+                f'{len(bad)} corrupted recordings, {len(bad) - len(missed)} rejected'
+                + (f'; first: {json.dumps(first)[:400]}' if first else ''))
 
 
 def labrun_growth(scratch):
@@ -143,6 +174,9 @@ def main() -> int:
             good, msg = _one(scratch, *args)
             print(('[ok] ' if good else '[MISMATCH] ') + msg)
             ok = ok and good
+        good, msg = storage_seq(scratch)
+        print(('[ok] ' if good else '[MISMATCH] ') + msg)
+        ok = ok and good
         good, msg = labrun_conformance(scratch)
         print(('[ok] ' if good else '[MISMATCH] ') + msg)
         ok = ok and good
